@@ -11,6 +11,7 @@ import (
 	"strings"
 	"testing"
 
+	sgbucket "github.com/couchbase/sg-bucket"
 	"github.com/couchbase/sync_gateway/auth"
 	"github.com/couchbase/sync_gateway/base"
 	"github.com/couchbase/sync_gateway/channels"
@@ -78,6 +79,7 @@ type c03Out struct {
 	Exists bool   `json:"exists"`
 	Chans  []int  `json:"chans,omitempty"`
 	Roles  []int  `json:"roles,omitempty"`
+	Raced  bool   `json:"raced,omitempty"` // loadrace: the first run of the rebuild callback produced a write that lost the CAS race
 }
 
 // ---------- ground truth of a history (the specification side of the monitors) ----------
@@ -146,7 +148,7 @@ func (tr *c03Truth) apply(op c03Op) {
 		}
 		nl = append(nl, c03Leaf{rev: *op.Rev, tomb: op.Body == "tomb", acc: op.Acc, rol: op.Rol})
 		tr.docs[op.Doc] = nl
-	case "setprinc":
+	case "setprinc", "loadrace":
 		m := tr.roles
 		if op.User {
 			m = tr.users
@@ -288,6 +290,7 @@ type c03Env struct {
 	isDefault bool
 	histNo    int
 	worlds    int
+	race      *c03RaceStore
 }
 
 func c03NewEnv(t *testing.T, defaultCollection bool) *c03Env {
@@ -304,7 +307,66 @@ func c03NewEnv(t *testing.T, defaultCollection bool) *c03Env {
 	return e
 }
 
-func (e *c03Env) close() { e.db.Close(e.ctx) }
+func (e *c03Env) close() {
+	if e.race != nil {
+		e.db.DatabaseContext.MetadataStore = e.race.DataStore
+	}
+	e.db.Close(e.ctx)
+}
+
+// c03RaceStore decorates the metadata store (where principal documents live): when armed for a key, the next
+// Update of that key runs the edit AFTER the first run of the update callback and BEFORE its compare-and-swap
+// write, exactly once (nested updates of the same key by the edit itself are not intercepted).
+type c03RaceStore struct {
+	base.DataStore
+	armKey     string
+	edit       func()
+	fired      bool
+	firstWrote bool // the first run of the callback returned a document to write
+	calls      int  // runs of the callback of the intercepted Update
+}
+
+func (s *c03RaceStore) arm(key string, edit func()) {
+	s.armKey, s.edit, s.fired, s.firstWrote, s.calls = key, edit, false, false, 0
+}
+
+func (s *c03RaceStore) Update(ctx context.Context, k string, exp uint32, cb sgbucket.UpdateFunc) (uint64, error) {
+	if s.armKey == "" || k != s.armKey {
+		return s.DataStore.Update(ctx, k, exp, cb)
+	}
+	edit := s.edit
+	s.armKey, s.edit = "", nil
+	wrapped := func(cur []byte) ([]byte, *uint32, bool, error) {
+		up, e, del, err := cb(cur)
+		s.calls++
+		if !s.fired {
+			s.fired = true
+			s.firstWrote = err == nil && up != nil
+			edit()
+		}
+		return up, e, del, err
+	}
+	return s.DataStore.Update(ctx, k, exp, wrapped)
+}
+
+// the same decorator for a store that supports sub-document operations (InvalidateChannels / InvalidateRoles
+// then take the same path as without the decorator)
+type c03RaceSubdocStore struct {
+	*c03RaceStore
+	sgbucket.SubdocStore
+}
+
+func c03NewRaceEnv(t *testing.T, defaultCollection bool) *c03Env {
+	e := c03NewEnv(t, defaultCollection)
+	dbc := e.db.DatabaseContext
+	e.race = &c03RaceStore{DataStore: dbc.MetadataStore}
+	if sub, ok := base.AsSubdocStore(dbc.MetadataStore); ok {
+		dbc.MetadataStore = &c03RaceSubdocStore{c03RaceStore: e.race, SubdocStore: sub}
+	} else {
+		dbc.MetadataStore = e.race
+	}
+	return e
+}
 
 func (e *c03Env) uname(i int) string { return fmt.Sprintf("h%du%d", e.histNo, i) }
 func (e *c03Env) rname(i int) string { return fmt.Sprintf("h%dr%d", e.histNo, i) }
@@ -401,6 +463,33 @@ func (e *c03Env) do(rec *vRecorder, op c03Op) (c03Out, error) {
 			return c03Out{Kind: "status", Ok: false}, err
 		}
 		return c03Out{Kind: "status", Ok: true}, nil
+	case "loadrace":
+		if e.race == nil {
+			return c03Out{}, fmt.Errorf("loadrace outside a race environment")
+		}
+		key := a.DocIDForRole(e.rname(op.Who))
+		load := c03Op{Kind: "loadrole", Who: op.Who}
+		if op.User {
+			key = a.DocIDForUser(e.uname(op.Who))
+			load = c03Op{Kind: "loaduser", Who: op.Who}
+		}
+		edit := op
+		edit.Kind = "setprinc"
+		var editErr error
+		e.race.arm(key, func() { _, editErr = e.do(rec, edit) })
+		out, err := e.do(rec, load)
+		if !e.race.fired {
+			e.race.arm("", nil)
+			return out, fmt.Errorf("the load did not go through a datastore Update of %s", key)
+		}
+		out.Raced = e.race.firstWrote
+		if err == nil && editErr != nil {
+			err = fmt.Errorf("edit inside the raced load: %w", editErr)
+		}
+		if err == nil && out.Raced && e.race.calls < 2 {
+			err = fmt.Errorf("the rebuild callback was not re-run after losing the CAS race (calls=%d)", e.race.calls)
+		}
+		return out, err
 	case "purge":
 		err := e.col.Purge(e.ctx, e.dname(op.Doc), false)
 		if err != nil {
@@ -541,6 +630,18 @@ func c03OpCoq(op c03Op) string {
 			return "SetUser " + cqI(op.Who) + " " + ch + " " + ro
 		}
 		return "SetRole " + cqI(op.Who) + " " + ch
+	case "loadrace":
+		ch, ro := "None", "None"
+		if op.SetCh {
+			ch = "(Some " + c03IntList(op.Chans) + ")"
+		}
+		if op.SetRo && op.User {
+			ro = "(Some " + c03IntList(op.Roles) + ")"
+		}
+		if op.User {
+			return "LoadUserRace " + cqI(op.Who) + " " + ch + " " + ro
+		}
+		return "LoadRoleRace " + cqI(op.Who) + " " + ch
 	case "purge":
 		return "Purge " + cqI(op.Doc)
 	case "delrole":
@@ -586,14 +687,58 @@ func c03Run(e *c03Env, rec *vRecorder, ops []c03Op) ([]c03Out, *c03Failure) {
 	outs := make([]c03Out, 0, len(ops))
 	var fail *c03Failure
 	purged := false
+	raced := false
 	setFail := func(i int, mon, sig, detail string) {
 		if fail == nil {
+			// a grant that survives (or comes back after) a load whose rebuild lost a CAS race against an admin edit
+			if raced && strings.HasSuffix(sig, "-extra") {
+				sig = "stale-admin-grant-after-raced-rebuild"
+			}
 			// db/crud.go Purge does not invalidate the grantees: a grant that outlives a purged document is
 			// reported under its own signature (see C03_Refuted.v)
 			if purged && strings.HasSuffix(sig, "-extra") {
 				sig = "purge-stale-grant"
 			}
 			fail = &c03Failure{monitor: mon, sig: sig, detail: detail, at: i}
+		}
+	}
+	checkUser := func(i, who int, out c03Out, chs, ros map[int]bool, afterRace bool) {
+		if afterRace {
+			raced = true
+		}
+		if (chs != nil) != out.Exists {
+			setFail(i, "access_spec", "user-existence", fmt.Sprintf("op %d: user exists=%v, spec %v", i, out.Exists, chs != nil))
+		} else if chs != nil {
+			if extra, missing := c03SameSet(out.Roles, ros); len(extra)+len(missing) > 0 {
+				sig := "user-roles-missing"
+				if len(extra) > 0 {
+					sig = "user-roles-extra"
+				}
+				setFail(i, "access_spec", sig, fmt.Sprintf("op %d: user %d roles %v, spec %v (extra %v missing %v)", i, who, out.Roles, c03Keys(ros), extra, missing))
+			}
+			if extra, missing := c03SameSet(out.Chans, chs); len(extra)+len(missing) > 0 {
+				sig := "user-channels-missing"
+				if len(extra) > 0 {
+					sig = "user-channels-extra"
+				}
+				setFail(i, "access_spec", sig, fmt.Sprintf("op %d: user %d channels %v, spec %v (extra %v missing %v)", i, who, out.Chans, c03Keys(chs), extra, missing))
+			}
+		}
+	}
+	checkRole := func(i, who int, out c03Out, chs map[int]bool, afterRace bool) {
+		if afterRace {
+			raced = true
+		}
+		if (chs != nil) != out.Exists {
+			setFail(i, "role_spec", "role-existence", fmt.Sprintf("op %d: role exists=%v, spec %v", i, out.Exists, chs != nil))
+		} else if chs != nil {
+			if extra, missing := c03SameSet(out.Chans, chs); len(extra)+len(missing) > 0 {
+				sig := "role-channels-missing"
+				if len(extra) > 0 {
+					sig = "role-channels-extra"
+				}
+				setFail(i, "role_spec", sig, fmt.Sprintf("op %d: role %d channels %v, spec %v (extra %v missing %v)", i, who, out.Chans, c03Keys(chs), extra, missing))
+			}
 		}
 	}
 	for i, op := range ops {
@@ -617,37 +762,30 @@ func c03Run(e *c03Env, rec *vRecorder, ops []c03Op) ([]c03Out, *c03Failure) {
 			}
 		case "loaduser":
 			chs, ros := tr.specUser(op.Who)
-			if (chs != nil) != out.Exists {
-				setFail(i, "access_spec", "user-existence", fmt.Sprintf("op %d: user exists=%v, spec %v", i, out.Exists, chs != nil))
-			} else if chs != nil {
-				if extra, missing := c03SameSet(out.Roles, ros); len(extra)+len(missing) > 0 {
-					sig := "user-roles-missing"
-					if len(extra) > 0 {
-						sig = "user-roles-extra"
-					}
-					setFail(i, "access_spec", sig, fmt.Sprintf("op %d: user %d roles %v, spec %v (extra %v missing %v)", i, op.Who, out.Roles, c03Keys(ros), extra, missing))
-				}
-				if extra, missing := c03SameSet(out.Chans, chs); len(extra)+len(missing) > 0 {
-					sig := "user-channels-missing"
-					if len(extra) > 0 {
-						sig = "user-channels-extra"
-					}
-					setFail(i, "access_spec", sig, fmt.Sprintf("op %d: user %d channels %v, spec %v (extra %v missing %v)", i, op.Who, out.Chans, c03Keys(chs), extra, missing))
-				}
-			}
+			checkUser(i, op.Who, out, chs, ros, false)
 		case "loadrole":
-			chs := tr.specRole(op.Who)
-			if (chs != nil) != out.Exists {
-				setFail(i, "role_spec", "role-existence", fmt.Sprintf("op %d: role exists=%v, spec %v", i, out.Exists, chs != nil))
-			} else if chs != nil {
-				if extra, missing := c03SameSet(out.Chans, chs); len(extra)+len(missing) > 0 {
-					sig := "role-channels-missing"
-					if len(extra) > 0 {
-						sig = "role-channels-extra"
-					}
-					setFail(i, "role_spec", sig, fmt.Sprintf("op %d: role %d channels %v, spec %v (extra %v missing %v)", i, op.Who, out.Chans, c03Keys(chs), extra, missing))
+			checkRole(i, op.Who, out, tr.specRole(op.Who), false)
+		case "loadrace":
+			// a raced load answers "load; edit" when the rebuild callback had nothing to write (no CAS write to
+			// lose) and "edit; load" when its write lost the race and the callback ran again on the new document
+			if op.User {
+				chs, ros := tr.specUser(op.Who)
+				tr.apply(op)
+				if out.Raced {
+					chs, ros = tr.specUser(op.Who)
+					raced = true
 				}
+				checkUser(i, op.Who, out, chs, ros, out.Raced)
+			} else {
+				chs := tr.specRole(op.Who)
+				tr.apply(op)
+				if out.Raced {
+					chs = tr.specRole(op.Who)
+					raced = true
+				}
+				checkRole(i, op.Who, out, chs, out.Raced)
 			}
+			continue
 		}
 		tr.apply(op)
 	}
@@ -791,6 +929,7 @@ type c03Gen struct {
 	nD      int
 	adv     bool
 	purge   bool
+	race    bool
 }
 
 func (g *c03Gen) subset(n, pct int) []int {
@@ -908,6 +1047,21 @@ func (g *c03Gen) next() c03Op {
 	if g.purge && g.rnd.Chance(10) {
 		return c03Op{Kind: "purge", Doc: g.rnd.Intn(g.nD)}
 	}
+	if g.race && g.rnd.Chance(22) {
+		// a load raced by an admin edit of the same principal; half of the edits EMPTY the admin channels / roles
+		op := g.setprinc()
+		op.Kind = "loadrace"
+		if !op.SetCh && !op.SetRo {
+			op.SetCh = true
+		}
+		if op.SetCh && g.rnd.Bool() {
+			op.Chans = []int{}
+		}
+		if op.SetRo && g.rnd.Bool() {
+			op.Roles = []int{}
+		}
+		return op
+	}
 	k := g.rnd.Intn(100)
 	w := []int{38, 22, 6, 3, 24, 7} // put setprinc delrole deluser loaduser loadrole
 	if g.adv {
@@ -949,8 +1103,11 @@ func c03LoadAll(nU, nR int) []c03Op {
 	return res
 }
 
-func c03RandomHistory(rnd *vRand, adv, purge bool) []c03Op {
-	g := &c03Gen{rnd: rnd, tr: c03NewTruth(), nU: 3, nR: 2, nD: 4, adv: adv, purge: purge}
+func c03RandomHistory(rnd *vRand, adv, purge bool, race ...bool) []c03Op {
+	g := &c03Gen{rnd: rnd, tr: c03NewTruth(), nU: 3, nR: 2, nD: 4, adv: adv, purge: purge, race: len(race) > 0 && race[0]}
+	if g.race {
+		g.nU, g.nR, g.nD = 2, 1, 2 // concentrate: admin sets are often non-empty and principals often invalidated
+	}
 	n := 8 + rnd.Intn(23)
 	checkAll := rnd.Chance(35)
 	// in most histories the principals are created up front; in the others (and always in the adversarial stream)
@@ -1196,7 +1353,7 @@ func TestVerifC03(t *testing.T) {
 	rec.Extra("exhaustive_scope", fmt.Sprintf("all %d sequences of length 1..%d over 9 abstract operations (1 user, 1 role, 1 document), each followed by loadrole, loaduser", nEx, maxLen))
 
 	// (iii) seeded random histories: structured and adversarial
-	nRand := vBudget(240, 1500)
+	nRand := vBudget(160, 1500)
 	for i := 0; i < nRand; i++ {
 		c03History(env(i%2 == 0), rec, "random", "random", c03RandomHistory(rnd, false, false))
 	}
@@ -1219,7 +1376,57 @@ func TestVerifC03(t *testing.T) {
 	for i := 0; i < nPurge; i++ {
 		c03History(env(i%2 == 0), rec, "purge", "purge_random", c03RandomHistory(rnd, false, true))
 	}
-	if b, err := json.Marshal(map[string]int{"random": nRand, "adversarial": nRand / 2, "exhaustive": nEx, "purge": nPurge + len(purgeCorpus)}); err == nil {
+	// (v) loads raced by an admin edit: the lazy rebuild of GetUser / GetRole loses its CAS write to UpdatePrincipal
+	// on the same principal (forced by a decorator of the metadata store), on the default and a named collection
+	raceEnvs := map[bool]*c03Env{true: c03NewRaceEnv(t, true), false: c03NewRaceEnv(t, false)}
+	defer func() {
+		for _, e := range raceEnvs {
+			e.close()
+		}
+	}()
+	ru := func(ch, ro []int, setCh, setRo bool) c03Op {
+		return c03Op{Kind: "loadrace", User: true, Who: 0, SetCh: setCh, Chans: ch, SetRo: setRo, Roles: ro}
+	}
+	su := func(ch, ro []int, setCh, setRo bool) c03Op {
+		return c03Op{Kind: "setprinc", User: true, Who: 0, SetCh: setCh, Chans: ch, SetRo: setRo, Roles: ro}
+	}
+	lu0, lr0 := c03Op{Kind: "loaduser", Who: 0}, c03Op{Kind: "loadrole", Who: 0}
+	grantU := func(d int, dig uint64, c int) c03Op {
+		return c03Op{Kind: "put", Doc: d, Rev: r(1, dig), Body: "live", Acc: []c03Grant{{To: 0, V: []int{c}}}}
+	}
+	raceCorpus := map[string][]c03Op{
+		// the admin channels are emptied while the invalidated user is being rebuilt
+		"user_admin_channels_emptied":  {su([]int{1, 2}, nil, true, false), lu0, grantU(0, 5, 3), ru([]int{}, nil, true, false), lu0},
+		"user_admin_channels_replaced": {su([]int{1, 2}, nil, true, false), lu0, grantU(0, 5, 3), ru([]int{4}, nil, true, false), lu0},
+		// the admin roles are emptied while the user's roles are being rebuilt
+		"user_admin_roles_emptied": {{Kind: "setprinc", Who: 0, SetCh: true, Chans: []int{2}}, su(nil, []int{0}, false, true), lu0,
+			{Kind: "put", Doc: 0, Rev: r(1, 5), Body: "live", Rol: []c03Grant{{To: 0, V: []int{0}}}},
+			{Kind: "put", Doc: 0, Parent: r(1, 5), Rev: r(2, 5), Body: "live"}, ru(nil, []int{}, false, true), lu0},
+		"user_both_emptied_right_after_edit": {su([]int{1}, []int{0}, true, true), ru([]int{}, []int{}, true, true), lu0},
+		"role_admin_channels_emptied": {{Kind: "setprinc", Who: 0, SetCh: true, Chans: []int{1, 2}}, su(nil, []int{0}, false, true), lr0,
+			{Kind: "put", Doc: 0, Rev: r(1, 5), Body: "live", Acc: []c03Grant{{Role: true, To: 0, V: []int{3}}}},
+			{Kind: "loadrace", Who: 0, SetCh: true, Chans: []int{}}, lr0, lu0},
+		// nothing to rebuild: the load answers from the document read before the edit, the edit lands
+		"user_no_rebuild_needed":                 {su([]int{1}, nil, true, false), lu0, ru([]int{}, nil, true, false), lu0},
+		"missing_principals_created_by_the_edit": {ru([]int{2}, nil, true, false), lu0, {Kind: "loadrace", Who: 0, SetCh: true, Chans: []int{3}}, lr0},
+		"deleted_role_recreated_by_the_edit": {{Kind: "setprinc", Who: 0, SetCh: true, Chans: []int{1}}, {Kind: "delrole", Who: 0},
+			{Kind: "loadrace", Who: 0, SetCh: true, Chans: []int{}}, lr0},
+	}
+	rnames := make([]string, 0, len(raceCorpus))
+	for n := range raceCorpus {
+		rnames = append(rnames, n)
+	}
+	sort.Strings(rnames)
+	for _, n := range rnames {
+		for _, def := range []bool{true, false} {
+			c03History(raceEnvs[def], rec, "race", "race_corpus_"+n, raceCorpus[n])
+		}
+	}
+	nRace := vBudget(40, 400)
+	for i := 0; i < nRace; i++ {
+		c03History(raceEnvs[i%2 == 0], rec, "race", "race_random", c03RandomHistory(rnd, false, false, true))
+	}
+	if b, err := json.Marshal(map[string]int{"race": nRace + 2*len(raceCorpus), "random": nRand, "adversarial": nRand / 2, "exhaustive": nEx, "purge": nPurge + len(purgeCorpus)}); err == nil {
 		rec.Extra("histories", string(b))
 	}
 }
